@@ -838,9 +838,19 @@ impl ConnectionHandler for Handler {
         }
 
         // Check active reservation.
+        //
+        // While a renewal is being accepted, the expiry of the reservation it replaces is not
+        // reported: the behaviour would otherwise forget a reservation that
+        // `ReservationReqAccepted` re-establishes right after. If accepting fails, the expiry is
+        // reported on the next poll.
+        let renewal_in_flight = matches!(
+            self.reservation_request_future,
+            Some(ReservationRequestFuture::Accepting(_))
+        );
         if let Some(Poll::Ready(())) = self
             .active_reservation
             .as_mut()
+            .filter(|_| !renewal_in_flight)
             .map(|fut| fut.poll_unpin(cx))
         {
             self.active_reservation = None;
